@@ -294,33 +294,7 @@ func vc01NewFixture() *vc01Fixture {
 	return f
 }
 
-// vc01Result is what came back on one transport.
-type vc01Result struct {
-	msgs [][]byte // DNS messages received (wire)
-	// treatment is the non-DNS part of the outcome: "closed", "http-<code>",
-	// "doq-close-<code>", "".
-	treatment string
-}
-
-func vc01Frames(b []byte) (msgs [][]byte, err error) {
-	for len(b) > 0 {
-		if len(b) < 2 {
-			return msgs, fmt.Errorf("dangling octet after %d frames", len(msgs))
-		}
-
-		l := int(binary.BigEndian.Uint16(b))
-		if len(b) < 2+l {
-			return msgs, fmt.Errorf("frame declares %d octets, %d follow", l, len(b)-2)
-		}
-
-		msgs = append(msgs, b[2:2+l])
-		b = b[2+l:]
-	}
-
-	return msgs, nil
-}
-
-func (f *vc01Fixture) udp(wire []byte) (r vc01Result, err error) {
+func (f *vc01Fixture) udp(wire []byte) (r ref.Result, err error) {
 	s := f.dns
 	pc := &vc01PacketConn{in: wire}
 	if err = s.acceptUDPMsg(context.Background(), pc); err != nil {
@@ -329,10 +303,10 @@ func (f *vc01Fixture) udp(wire []byte) (r vc01Result, err error) {
 
 	s.wg.Wait()
 
-	return vc01Result{msgs: pc.out}, nil
+	return ref.Result{Msgs: pc.out}, nil
 }
 
-func (f *vc01Fixture) tcp(s *ServerDNS, wire []byte) (r vc01Result, err error) {
+func (f *vc01Fixture) tcp(s *ServerDNS, wire []byte) (r ref.Result, err error) {
 	in := binary.BigEndian.AppendUint16(nil, uint16(len(wire)))
 	conn := &vc01Conn{in: bytes.NewReader(append(in, wire...))}
 	wg := &sync.WaitGroup{}
@@ -341,15 +315,15 @@ func (f *vc01Fixture) tcp(s *ServerDNS, wire []byte) (r vc01Result, err error) {
 	}
 
 	wg.Wait()
-	r.msgs, err = vc01Frames(conn.out.Bytes())
+	r.Msgs, err = ref.Frames(conn.out.Bytes())
 	if conn.closed {
-		r.treatment = "closed"
+		r.Treatment = "closed"
 	}
 
 	return r, err
 }
 
-func (f *vc01Fixture) http(method, target string, body []byte) (r vc01Result, rec *httptest.ResponseRecorder) {
+func (f *vc01Fixture) http(method, target string, body []byte) (r ref.Result, rec *httptest.ResponseRecorder) {
 	var rd io.Reader
 	if body != nil {
 		rd = bytes.NewReader(body)
@@ -358,15 +332,15 @@ func (f *vc01Fixture) http(method, target string, body []byte) (r vc01Result, re
 	req := httptest.NewRequest(method, target, rd)
 	rec = httptest.NewRecorder()
 	f.doh.ServeHTTP(rec, req)
-	r.treatment = "http-" + strconv.Itoa(rec.Code)
+	r.Treatment = "http-" + strconv.Itoa(rec.Code)
 	if rec.Code == http.StatusOK {
-		r.msgs = [][]byte{rec.Body.Bytes()}
+		r.Msgs = [][]byte{rec.Body.Bytes()}
 	}
 
 	return r, rec
 }
 
-func (f *vc01Fixture) quic(wire []byte, prefix, chunk int) (r vc01Result, err error) {
+func (f *vc01Fixture) quic(wire []byte, prefix, chunk int) (r ref.Result, err error) {
 	in := binary.BigEndian.AppendUint16(nil, uint16(prefix))
 	st := &vc01Stream{in: append(in, wire...), chunk: chunk}
 	conn := &vc01QConn{}
@@ -375,15 +349,15 @@ func (f *vc01Fixture) quic(wire []byte, prefix, chunk int) (r vc01Result, err er
 
 	ctx = ContextWithRequestInfo(ctx, &RequestInfo{StartTime: time.Now()})
 	_ = f.doq.serveQUICStream(ctx, st, conn)
-	r.msgs, err = vc01Frames(st.out.Bytes())
+	r.Msgs, err = ref.Frames(st.out.Bytes())
 	if len(conn.closes) > 0 {
-		r.treatment = fmt.Sprintf("doq-close-%d", conn.closes[0])
+		r.Treatment = fmt.Sprintf("doq-close-%d", conn.closes[0])
 	}
 
 	return r, err
 }
 
-func (f *vc01Fixture) crypt(local net.Addr, req *dns.Msg) (r vc01Result, err error) {
+func (f *vc01Fixture) crypt(local net.Addr, req *dns.Msg) (r ref.Result, err error) {
 	rw := &vc01CryptRW{local: local}
 	if err = f.dnscrypt.ServeDNS(rw, req.Copy()); err != nil {
 		return r, fmt.Errorf("dnsCryptHandler.ServeDNS: %w", err)
@@ -395,78 +369,10 @@ func (f *vc01Fixture) crypt(local net.Addr, req *dns.Msg) (r vc01Result, err err
 			return r, fmt.Errorf("DNSCrypt response does not pack: %w", perr)
 		}
 
-		r.msgs = append(r.msgs, b)
+		r.Msgs = append(r.Msgs, b)
 	}
 
 	return r, nil
-}
-
-// vc01Judge compares what came back on tr with the documented treatment.
-// full is the canonical form of a complete (non-truncated) answer, "" if none.
-func vc01Judge(tr ref.Transport, c *ref.Case, r vc01Result, o ref.CheckOpts) (full string, classes []string, err error) {
-	kind, want := c.Expect(tr)
-	classes = []string{tr.Name + ":" + ref.ExpectNames[kind]}
-	if len(r.msgs) > 1 {
-		return "", classes, fmt.Errorf("%d DNS messages came back for one input", len(r.msgs))
-	}
-
-	var got *dns.Msg
-	if len(r.msgs) == 1 {
-		got = &dns.Msg{}
-		if uerr := got.Unpack(r.msgs[0]); uerr != nil {
-			return "", classes, fmt.Errorf("the response does not decode: %w: %x", uerr, r.msgs[0])
-		}
-	}
-
-	switch kind {
-	case ref.NoMessage:
-		if got != nil {
-			return "", classes, fmt.Errorf("a DNS message came back (%s) where none is documented: %v", r.treatment, got)
-		}
-
-		switch {
-		case tr.DoQ:
-			if r.treatment != fmt.Sprintf("doq-close-%d", DOQCodeProtocolError) {
-				return "", classes, fmt.Errorf("DoQ: want the connection closed with DOQ_PROTOCOL_ERROR, got %q", r.treatment)
-			}
-		case tr.Name == "tcp" || tr.Name == "dot":
-			if r.treatment != "closed" {
-				return "", classes, fmt.Errorf("%s: nothing written and the connection left open (%q)", tr.Name, r.treatment)
-			}
-		case strings.HasPrefix(tr.Name, "doh"):
-			if !strings.HasPrefix(r.treatment, "http-4") && !strings.HasPrefix(r.treatment, "http-5") {
-				return "", classes, fmt.Errorf("DoH: want an HTTP error status, got %q", r.treatment)
-			}
-		}
-
-		return "", classes, nil
-	case ref.ReplyOrNone:
-		if got == nil {
-			classes = append(classes, tr.Name+":fallback-none")
-
-			return "", classes, nil
-		}
-
-		classes = append(classes, tr.Name+":fallback-servfail")
-
-		return "", classes, ref.CheckServfailOrForeign(tr, c, want, got)
-	}
-
-	if got == nil {
-		return "", classes, fmt.Errorf("no DNS message came back (%s); the pipeline produced %v", r.treatment, want)
-	}
-
-	if err = ref.CheckReply(tr, c, want, got, c.Loose, o); err != nil {
-		return "", classes, err
-	}
-
-	if got.Truncated {
-		classes = append(classes, "truncated-on-"+tr.Name)
-
-		return "", classes, nil
-	}
-
-	return ref.Canon(got), classes, nil
 }
 
 // vc01PlainName tells whether a name can be sent through the JSON API as is.
@@ -516,12 +422,12 @@ func vc01FramingCase(t *rapid.T, st *vstat.Stats, f *vc01Fixture, in ref.Input) 
 		t.Fatalf("transport %s, input %s (%s) %s:\n%v", tr, in.Gen, ref.VerdictNames[c.Verdict], ref.Hex(wire), err)
 	}
 
-	run := func(tr ref.Transport, r vc01Result, err error, o ref.CheckOpts) {
+	run := func(tr ref.Transport, r ref.Result, err error, o ref.CheckOpts) {
 		if err != nil {
 			fail(tr.Name, err)
 		}
 
-		full, cl, err := vc01Judge(tr, c, r, o)
+		full, cl, err := ref.Judge(tr, c, r, o)
 		classes = append(classes, cl...)
 		if err != nil {
 			fail(tr.Name, err)
@@ -549,7 +455,7 @@ func vc01FramingCase(t *rapid.T, st *vstat.Stats, f *vc01Fixture, in ref.Input) 
 			fail("udp", err)
 		}
 
-		for _, m := range r.msgs {
+		for _, m := range r.Msgs {
 			got := &dns.Msg{}
 			if uerr := got.Unpack(m); uerr != nil {
 				fail("udp", fmt.Errorf("the response does not decode: %w", uerr))
@@ -592,8 +498,8 @@ func vc01FramingCase(t *rapid.T, st *vstat.Stats, f *vc01Fixture, in ref.Input) 
 			fail("doq", err)
 		}
 
-		if len(r.msgs) != 0 || r.treatment != fmt.Sprintf("doq-close-%d", DOQCodeProtocolError) {
-			fail("doq", fmt.Errorf("length prefix %d for %d octets: %d messages came back, treatment %q", prefix, len(wire), len(r.msgs), r.treatment))
+		if len(r.Msgs) != 0 || r.Treatment != ref.DoQProtocolError {
+			fail("doq", fmt.Errorf("length prefix %d for %d octets: %d messages came back, treatment %q", prefix, len(wire), len(r.Msgs), r.Treatment))
 		}
 	}
 
@@ -667,7 +573,7 @@ func vc01FramingCase(t *rapid.T, st *vstat.Stats, f *vc01Fixture, in ref.Input) 
 		// request the server built itself (its ID is the server's), judged against
 		// the equivalent request's own case.
 		r, _ = f.http(method, vc01JSONTarget(q, cd, do, mn, true), nil)
-		_, cl, jerr := vc01Judge(ref.DoH.Named("doh-json-ct-wire"), jc, r, ref.CheckOpts{NoID: true})
+		_, cl, jerr := ref.Judge(ref.DoH.Named("doh-json-ct-wire"), jc, r, ref.CheckOpts{NoID: true})
 		classes = append(classes, cl...)
 		if jerr != nil {
 			fail("doh-json-ct-wire", jerr)
